@@ -42,7 +42,7 @@ def concretize(c, tag=False):
     for t in c["tattrs"]:
         n = t["n"]
         x = sfx(t["cp"])
-        arg = {"ghosts": f"gx{x}: {{gh{x}()}}", "where_clause": f"T: Clone{x}", "child_parents": f"p: P{x}", "parent": "", "literal": "1", "pattern": "_", "type_hint": "as ()",
+        arg = {"ghosts": f"gx{x}: {{gh{x}()}}", "where_clause": f"T: Clone{x}", "child_parents": f"p: P{x}" + ({"b": " as ()"}.get(x, "") if tag else ""), "parent": "", "literal": "1", "pattern": "_", "type_hint": "as ()",
                "children": "p: P", "ghost": "{gh()}", "child": "p", "bogus": "x"}[n]
         body = f'{n}({cpfx(t["cp"])}{arg})' if arg or t["cp"] != "-" else n
         a.append(sp(t["own"], body))
